@@ -174,6 +174,35 @@ Theorem C14_iterator_local : forall anc locals nm d v n lv k x,
 Proof. exact iterator_local. Qed.
 Print Assumptions C14_iterator_local.
 
+(* ---- iterator ranges (iteratorrole.go expandTemplate, iteratorrange.go) ---- *)
+
+(* every time an iterator is loaded - an iterator inside the template of another iterator is
+   loaded once per role the outer one generates, under that role - its range is evaluated
+   against the consolidated stack of the role it is loaded under, and exactly one copy of the
+   template is loaded per value of that range, with the value as its local *)
+Theorem C14_iterator_range : forall anc locals var rng tpl ts,
+  load anc locals (RIter var rng tpl) = Some ts ->
+  exists vals, eval_range (consolidated anc) rng = Some vals /\
+               opt_concat_map (fun x => load anc [(var, x)] tpl) vals = Some ts.
+Proof. exact iterator_range. Qed.
+Print Assumptions C14_iterator_range.
+
+(* a name in a range or bound resolves by the documented ranking seen from that role *)
+Theorem C14_range_reference : forall anc k,
+  eval_val (consolidated anc) (VRef k) = first_hit k (sources anc).
+Proof. exact range_reference. Qed.
+Print Assumptions C14_range_reference.
+
+(* in particular, under a role generated for the value x of an outer iterator variable, a bound
+   {{ var }} of an inner iterator is x - that role's value, not a sibling's - unless a user
+   variable on the path defines the name *)
+Theorem C14_nested_range_sees_own_outer_value : forall anc' locals nm d v n lv anc var x,
+  resolve_level anc' locals nm d v = Some (n, lv) -> assoc var locals = Some x ->
+  first_hit var (chain l_user (lv :: anc)) = None ->
+  eval_val (consolidated (lv :: anc)) (VRef var) = Some x.
+Proof. exact nested_range_sees_own_outer_value. Qed.
+Print Assumptions C14_nested_range_sees_own_outer_value.
+
 (* ---- the call a role runs (callable.Call.Call) ---- *)
 Theorem C14_call_sees_role_stack : forall p sp k,
   assoc k (call_stack p sp) = first_hit k (sp :: sources p).
@@ -251,17 +280,25 @@ Example C14_nonvacuous :
   resolve_level [parent; env] [] (Some a) [(c, VRef b)] [(b, VRef c)] =
     Some ([110], mkLevel [(c, [121])] [(b, [121])] []) /\
   (exists vs, run_tree env (RRole None [(a, VLit [])] []
-                              [RIter [105] [[48]; [49]] (RRole (Some [105]) [] [(b, VRef [105])] [])])
+                              [RIter [105] (IList [VLit [48]; VLit [49]]) (RRole (Some [105]) [] [(b, VRef [105])] [])])
                        [([0; 1], MSet a [122])] = Some vs /\ length vs = 3%nat) /\
   (* an iterated include role with a default of its own, under a root and an environment that
      define the same keys: the leaf of the sub-workflow sees the include role's values *)
   (exists vs, run_tree env (RRole None [([100], VLit [121])] [([105], VLit [122])]
-                              [RIter [105] [[48]] (RIncl None [([100], VLit [120])] [] [] []
+                              [RIter [105] (IList [VLit [48]]) (RIncl None [([100], VLit [120])] [] [] []
                                                          [RRole None [] [(b, VRef [100])] []])])
                        [] = Some vs /\
               exists w, nth_error vs 2 = Some w /\ w_addr w = [0; 0; 0] /\
                         assoc [100] (w_stack w) = Some [120] /\ assoc b (w_stack w) = Some [120] /\
                         assoc [105] (w_stack w) = Some [48]) /\
+  (* nested iterators, the inner bound being the outer variable: outer values 1 and 3 give 2 and
+     4 inner roles, 1 root + 2 outer + 6 inner roles in all *)
+  (exists vs, run_tree (mkLevel [] [] [])
+                       (RRole None [] []
+                          [RIter [105] (IList [VLit [49]; VLit [51]])
+                             (RRole None [] []
+                                [RIter [106] (IFor (VLit [48]) (VRef [105])) (RRole None [] [] [])])])
+                       [] = Some vs /\ length vs = 9%nat) /\
   (exists st, cmd_stack (consolidated p) [] [(b, VLit [120]); ([100], VLit [120])]
                         [([100], VLit [121])] = Some st /\
               assoc [100] st = Some [121] /\ assoc b st = Some []).
@@ -269,5 +306,6 @@ Proof.
   vm_compute. repeat split; try reflexivity.
   - eexists. split; reflexivity.
   - eexists. split; [reflexivity|]. eexists. repeat split; reflexivity.
+  - eexists. split; reflexivity.
   - eexists. repeat split; reflexivity.
 Qed.
